@@ -24,3 +24,5 @@ open RawPanelVerif.C12
 #print axioms errormsg_absent
 #print axioms split_ack_disagree
 #print axioms entry_points_differ_example
+#print axioms timeouts_are_the_window_of_the_property_text
+#print axioms probe_window_is_the_constant_deadline
